@@ -9,6 +9,7 @@ import (
 	"fmt"
 	"math/big"
 	"os"
+	"strings"
 
 	"github.com/google/go-eventlog/extract"
 	"github.com/google/go-eventlog/proto/state"
@@ -550,6 +551,58 @@ func runC18(r *mc.Run) {
 		r.Eval(id, i != 0, fmt.Sprintf("%s:v=%v,p=%v:%s", kind, gateV, gateP, out))
 	})
 	r.SectionDone(mc.Section{Name: "gates-x-rtmr", Evaluations: int64(done), Exhaustive: done == len(cases)})
+	// the GENUINE sample quote (certified by Intel's real chain) with its event log: a state comes back under the
+	// embedded root (no pool given) and under no pool that does not hold Intel's root — empty, unrelated, the harness's
+	{
+		when := world.T0
+		if pq, perr := ref.ParseQuote(cos); perr == nil {
+			if ders := ref.ChainDERs([]byte(strings.TrimRight(string(pq.Chain), "\x00"))); len(ders) > 0 {
+				if leaf, e := x509.ParseCertificate(ders[0]); e == nil {
+					when = leaf.NotBefore.AddDate(0, 0, 1)
+				}
+			}
+		}
+		qcos, perr := safeToProto(cos)
+		for _, pc := range []struct {
+			name string
+			pool *x509.CertPool
+			want bool
+		}{{"nil(embedded-root)", nil, true}, {"empty-pool", x509.NewCertPool(), false}, {"empty-pool-after-use", func() *x509.CertPool {
+			p := x509.NewCertPool()
+			p.AppendCertsFromPEM([]byte("not a certificate"))
+			return p
+		}(), false}, {"{harness-root}", world.Pool(T.Root), false}, {"{look-alike-of-intel-root}", world.Pool(world.MakeCert(world.CertSpec{CN: world.CNRoot, IsCA: true, Key: F.RootKey, MaxPathLen: 1}, nil, F.RootKey)), false}} {
+			id := "genuine-sample/pool=" + pc.name
+			if perr != nil || !r.Want(id) {
+				continue
+			}
+			o := rtmr.TdxDefaultOpts(nonce)
+			now := world.TimeSetAt(when)
+			o.Verification = &verify.Options{Now: &now, TrustedRoots: pc.pool}
+			o.ExtractOpt = extract.Opts{Loader: extract.GRUB}
+			var st *state.FirmwareLogState
+			var err error
+			func() {
+				defer world.Recover(&err)
+				st, err = rtmr.ParseCcelWithTdQuote(ccelBytes, tableBytes, qcos, &o)
+			}()
+			out := "error"
+			switch {
+			case world.IsPanic(err):
+				r.Violate("genuine:panic:"+crashSite(err), id, "ParseCcelWithTdQuote crashes: "+errStr(err), nil)
+				out = "panic"
+			case (st != nil || err == nil) && !pc.want:
+				r.Violate("genuine:state-without-trusted-root:"+pc.name, id, "a firmware log state is returned for the Intel-certified sample although the configured pool does not hold Intel's root", nil)
+				out = "state!"
+			case pc.want && (st == nil || err != nil):
+				r.Violate("genuine:rejected-under-embedded-root", id, "the genuine sample with its event log yields no state under the embedded root: "+errStr(err), nil)
+				out = "error!"
+			case st != nil:
+				out = "state"
+			}
+			r.Eval(id, true, "genuine:"+out)
+		}
+	}
 	_ = validate.Options{}
 	_ = x509.Certificate{}
 }
